@@ -44,10 +44,26 @@ class HP(rs_model.Point3D):
         return self._vec
 
 
+class _HavocComp:
+    """direction component: component * t is an unconstrained real per sample (every sample position is arbitrary:
+    a sound over-approximation of all rays, and it keeps the path conditions linear)"""
+    def __init__(self, ex, axis, log):
+        self.ex, self.axis, self.log = ex, axis, log
+
+    def __mul__(self, t):
+        v = self.ex.real('offset_%s_%d' % (self.axis, len(self.log[self.axis])))
+        self.log[self.axis].append(v)
+        self.log.setdefault('t_' + self.axis, []).append(t)
+        return v
+    __rmul__ = __mul__
+
+
 class HV:
-    """start->end vector: length and unit direction are free symbols (sound over-approximation of all rays)"""
-    def __init__(self, length, d):
-        self._l, self._d = length, d
+    """start->end vector: the length is a free symbol, the direction is havocked"""
+    def __init__(self, ex, length):
+        self._l = length
+        self.log = {'x': [], 'y': [], 'z': []}
+        self._d = [_HavocComp(ex, a, self.log) for a in 'xyz']
 
     def get_length(self):
         return self._l
@@ -103,8 +119,9 @@ def _floor_cell(ex, q):
 
 
 @harness('C10', name='accumulation', universe=_universe,
-         tiers={'quick': [{'kind': k, 'nmax': n} for k in ('cartesian', 'cylindrical') for n in (2, 3)],
-                'thorough': [{'kind': k, 'nmax': n} for k in ('cartesian', 'cylindrical') for n in (2, 3, 4, 5)]},
+         tiers={'quick': [{'kind': k, 'nmax': n} for k in ('cartesian', 'cylindrical') for n in (2,)],
+                'thorough': [{'kind': k, 'nmax': n} for k in ('cartesian', 'cylindrical') for n in (2, 3, 4)]},
+         max_paths=400000,
          functions=[EM + '.CartesianRayTransferIntegrator.integrate', EM + '.CylindricalRayTransferIntegrator.integrate'],
          cover=['integrated', 'short-ray-skipped'],
          bounds={'samples': 'number of integration samples n = max(min_samples, int(length/step)) <= nmax (forked by the solver)',
@@ -117,20 +134,19 @@ def _floor_cell(ex, q):
 def accumulation(ex, uni, kind, nmax):
     nsrc = 2
     shape = (2, 2, 2)
-    steps = (ex.real('d0', pos=True), ex.real('d1', pos=True), ex.real('d2', pos=True))
-    if kind == 'cylindrical':
-        steps = (steps[0], 45.0, steps[2])      # two angular cells of 45 degrees: period 90 divides 360
-    rmin = ex.real('rmin', nonneg=True) if kind == 'cylindrical' else 0
+    # concrete cell sizes here (the index arithmetic with symbolic cell sizes is the subject of cell_index)
+    steps = (0.5, 1.0, 2.0) if kind == 'cartesian' else (0.5, 45.0, 2.0)      # angular cells of 45 degrees: period 90
+    rmin = 0.25 if kind == 'cylindrical' else 0
     mod, mat, vm = _mk_material(uni, ex, kind, shape, steps, nsrc, rmin)
     Integ = mod.CartesianRayTransferIntegrator if kind == 'cartesian' else mod.CylindricalRayTransferIntegrator
     step = ex.real('step', pos=True)
     msamp = int(ex.int('min_samples', 2, nmax))
     integ = Integ(step, msamp)
     L = ex.real('length', pos=True)
-    d = [ex.real('dir_' + c) for c in 'xyz']
     s = [ex.real('start_' + c) for c in 'xyz']
     ex.assume(L < step * (nmax + 1), 'at most nmax samples from the step rule')
-    start = HP(s[0], s[1], s[2], HV(L, d))
+    hv = HV(ex, L)
+    start = HP(s[0], s[1], s[2], hv)
     sp = uni.rs.Spectrum(1.0, 2.0, nsrc)
     pre = []
     for i in range(nsrc):
@@ -146,6 +162,13 @@ def accumulation(ex, uni, kind, nmax):
             # the code computes (180. / pi) * atan2(...): hand back a / (180. / pi) so that the product is exactly `a`
             return a / (180.0 / math.pi) if not ex.sym else a / core.CR(180.0 / math.pi)
         g['atan2'] = atan2
+        radii = []
+
+        def sqrt(v):    # r = sqrt(x^2 + y^2) havocked as well: any non-negative radius per sample
+            r_ = ex.real('radius_%d' % len(radii), nonneg=True)
+            radii.append(r_)
+            return r_
+        g['sqrt'] = sqrt
     out = integ.integrate(sp, None, None, None, mat, HPoint(start), HPoint(start), 'w2p', 'p2w')
     short = L < 0.1 * step
     if short:
@@ -165,12 +188,14 @@ def accumulation(ex, uni, kind, nmax):
     added = [0.0] * nsrc
     active = 0
     for it in range(nn):
-        t = (it + 0.5) * dt
-        pos = [s[k] + d[k] * t for k in range(3)]
+        ok_n = all(len(hv.log[a]) == nn for a in 'xyz')
+        if not ok_n:
+            break
+        pos = [s[k] + hv.log[a][it] for k, a in enumerate('xyz')]
         if kind == 'cartesian':
             q = [pos[k] / steps[k] for k in range(3)]
         else:
-            r = core.MATH.sqrt(pos[0] * pos[0] + pos[1] * pos[1])
+            r = radii[it]
             a = angles[it]
             ph = a + 360.0
             # moving into [0, period): period = 90
@@ -185,6 +210,9 @@ def accumulation(ex, uni, kind, nmax):
         src = vm[cell[0], cell[1], cell[2]]
         for sidx in range(nsrc):
             added[sidx] = added[sidx] + ex.ite(src == sidx, dt, 0.0)
+    ex.prove(all(len(hv.log[a]) == nn for a in 'xyz'), 'number-of-samples==max(min_samples,floor(length/step))')
+    if all(len(hv.log[a]) == nn for a in 'xyz'):
+        ex.prove(ex.all([ex.eq(hv.log['t_' + a][it], (it + 0.5) * dt) for a in 'xyz' for it in range(nn)]), 'samples-taken-at-mid-points-(it+1/2)*length/n')
     for sidx in range(nsrc):
         ex.prove(ex.eq(sp.samples[sidx] - pre[sidx], added[sidx]), 'entry(source)==dt*#{samples-whose-cell-maps-to-the-source}')
     tot = sum(added[1:], added[0])
